@@ -57,6 +57,11 @@ var (
 	fenceOnce    sync.Once
 )
 
+// ErrSkipBusiness is returned by CommitFence and RollbackFence when the fence operation succeeded
+// and the business method must not be executed: the branch had already been committed /
+// rollbacked (idempotent duplicate) or the rollback arrived before try (suspension recorded)
+var ErrSkipBusiness = errors.New("tcc fence: nothing to do for the business method")
+
 func GetFenceHandler() *tccFenceWrapperHandler {
 	if fenceHandler == nil {
 		fenceOnce.Do(func() {
@@ -99,7 +104,7 @@ func (handler *tccFenceWrapperHandler) CommitFence(ctx context.Context, tx *sql.
 
 	if fenceDo.Status == enum.StatusCommitted {
 		log.Infof("branch transaction has already committed before. idempotency rejected. xid: %s, branchId: %d, status: %d", xid, branchId, fenceDo.Status)
-		return nil
+		return ErrSkipBusiness
 	}
 	if fenceDo.Status == enum.StatusRollbacked || fenceDo.Status == enum.StatusSuspended {
 		// enable warn level
@@ -126,14 +131,14 @@ func (handler *tccFenceWrapperHandler) RollbackFence(ctx context.Context, tx *sq
 			return fmt.Errorf("insert tcc fence record errors, rollback fence failed. xid= %s, branchId= %d, [%w]", xid, branchId, err)
 		}
 		log.Infof("Insert tcc fence suspend record xid: %s, branchId: %d", xid, branchId)
-		return nil
+		return ErrSkipBusiness
 	}
 
 	// have rollbacked or suspended
 	if fenceDo.Status == enum.StatusRollbacked || fenceDo.Status == enum.StatusSuspended {
 		// enable warn level
 		log.Infof("Branch transaction had already rollbacked before, idempotency rejected. xid: %s, branchId: %d, status: %s", xid, branchId, fenceDo.Status)
-		return nil
+		return ErrSkipBusiness
 	}
 	if fenceDo.Status == enum.StatusCommitted {
 		log.Warnf("Branch transaction status is unexpected. xid: %s, branchId: %d, status: %d", xid, branchId, fenceDo.Status)
